@@ -38,20 +38,59 @@ class FakeStdin:
     bytes suspends its caller for ceil(S/N) steps of virtual time AFTER its bytes were appended -
     other tasks (the stdout reader) run and may write to the same pipe meanwhile."""
 
+    """
+    Further scripted conditions (all optional):
+    `stall` = T seconds: the child does not read its stdin AT ALL until T seconds (virtual) after the
+    connection was opened - longer than any timeout a client may have; the pipe and the transport
+    buffer take `capacity` bytes, a `send()` that leaves more than that outstanding suspends until the
+    child has read enough (after the stall it reads `drain_bytes` per step, or everything at once).
+    A `send()` whose wait is cancelled has ALREADY handed its bytes over (as `StreamWriter.write` has).
+    `fail_sends` = {k, …}: the k-th `send()` call (0-based) fails with BrokenPipeError, nothing is written.
+    `breaks_at` = k: the child closes its stdin: the k-th and every later `send()` fails."""
+
     def __init__(self, drain_bytes: int = 0):
         self.sends: list[bytes] = []
         self.closed = False
         self.sends_at_close = None
         self.drain_bytes = drain_bytes
+        self.stall = None
+        self.capacity = 131072
+        self.t_open = None
+        self.total = 0
+        self.calls = 0
+        self.fail_sends = set()
+        self.breaks_at = None
+        self.failed = []
 
     async def send(self, data):
+        import asyncio
+
         import anyio
 
         if self.closed:
             raise anyio.ClosedResourceError
+        k = self.calls
+        self.calls += 1
+        if k in self.fail_sends or (self.breaks_at is not None and k >= self.breaks_at):
+            self.failed.append(k)
+            await anyio.lowlevel.checkpoint()
+            raise BrokenPipeError("the child is not taking this write")
         data = bytes(data)
         self.sends.append(data)
-        if self.drain_bytes:
+        if self.stall is not None:
+            self.total += len(data)
+            now = asyncio.get_running_loop().time()
+            end = self.t_open + self.stall
+            need = self.total - self.capacity  # bytes the child must have read before this call may return
+            if need <= 0:
+                await anyio.lowlevel.checkpoint()
+                return
+            t = end + ((-(-need // self.drain_bytes)) * STEP if self.drain_bytes else 0.0)
+            if t > now:
+                await anyio.sleep(t - now)
+            else:
+                await anyio.lowlevel.checkpoint()
+        elif self.drain_bytes:
             await anyio.sleep(-(-len(data) // self.drain_bytes) * STEP)
         else:
             await anyio.lowlevel.checkpoint()
@@ -337,21 +376,44 @@ async def _reader_session(mod, holder, case, cm, get, client_hint=None):
         if opts.get("read_closed"):  # the consumer of the read stream went away; the child keeps talking
             await read.aclose()
 
+        frozen = []
+
+        def scribble(m):
+            """a consumer (middleware) that changes what it received IN PLACE"""
+            for attr in ("params", "result", "error"):
+                v = getattr(m, attr, None)
+                if isinstance(v, dict):
+                    v["_meta"] = {"touched": True}
+                    v.pop("text", None)
+                elif isinstance(v, list):
+                    v.append("touched")
+            for attr, val in (("id", "scribbled"), ("method", "scribbled/method")):
+                try:
+                    setattr(m, attr, val)
+                except Exception:  # noqa
+                    pass
+
         async def consume():
             if opts.get("consumer") == "slow":
                 async for m in read:
                     delivered.append(m)
                     await anyio.sleep(0.01)
+            elif opts.get("consumer") == "mutate":
+                async for m in read:
+                    frozen.append(dump_msg(m))  # what arrived
+                    delivered.append(m)
+                    scribble(m)                  # … and what the consumer then does with ITS object
             else:
                 async for m in read:
                     delivered.append(m)
 
         async with anyio.create_task_group() as tg:
             if opts.get("consumer") == "late":
-                await anyio.sleep(1.0)  # the reader fills the 100-slot read stream and has to wait
+                await anyio.sleep(float(opts.get("late_s", 1.0)))  # the reader fills the 100-slot read stream and has to wait
             if not opts.get("read_closed"):
                 tg.start_soon(consume)
-            await anyio.sleep(30.0)  # virtual: returns once every other task is blocked or done
+            idle = sum(e.get("sleep", 0) for e in case["events"]) * STEP
+            await anyio.sleep(30.0 + idle)  # virtual: returns once every other task is blocked or done
             if client is not None and not opts.get("notif_closed"):
                 try:
                     while True:
@@ -369,9 +431,10 @@ async def _reader_session(mod, holder, case, cm, get, client_hint=None):
             eof = proc.eof  # before the client's own shutdown (which may drain the pipe)
             tg.cancel_scope.cancel()
     return {
-        "delivered": None if opts.get("read_closed") else [dump_msg(m) for m in delivered],
+        "delivered": None if opts.get("read_closed") else (frozen if opts.get("consumer") == "mutate" else [dump_msg(m) for m in delivered]),
+        # (the notification stream holds the SAME objects as the read stream: after a scribbling consumer its content is not compared)
         "notified": [dump_msg(m) for m in notified] if (proc.client is not None and not isinstance(proc.client, _NoClient)
-                                                        and not opts.get("notif_closed")) else None,
+                                                        and not opts.get("notif_closed") and opts.get("consumer") != "mutate") else None,
         "writes": _decode_writes(proc.stdin.sends),
         "eof": eof,
         "legacy": legacy,
@@ -455,6 +518,8 @@ async def _writer_case(mod, holder, case, build):
             client, _read, write = await get(entered)
             proc.client = client
             proc.stdin.aclose_raises = bool(case.get("aclose_raises"))
+            proc.stdin.fail_sends = set(case.get("fail_sends", []))
+            proc.stdin.breaks_at = case.get("breaks_at")
             await _send_items(client, write, case["items"], build)
             await anyio.sleep(1.0)
             before_close = {"closed": proc.stdin.closed, "n": len(proc.stdin.sends)}
@@ -474,7 +539,8 @@ async def _writer_case(mod, holder, case, build):
             sends = list(proc.stdin.sends)
     except (Exception, _Cancelled()) as ex:  # noqa (a crashed task of the client cancels the host task too)
         return {"harness_error": type(ex).__name__}
-    return {"bytes": b"".join(sends).hex(), "sends": len(sends), "before_close": before_close, "after_close": after, "late": late}
+    return {"bytes": b"".join(sends).hex(), "sends": len(sends), "before_close": before_close, "after_close": after, "late": late,
+            "failed_sends": list(proc.stdin.failed)}
 
 
 async def _duplex_case(mod, holder, case, build):
@@ -501,6 +567,12 @@ async def _duplex_case(mod, holder, case, build):
     proc = FakeProcess(script)
     proc.t0 = round(loop.time() * vloop.TICKS_PER_S)
     proc.stdin.drain_bytes = int(case.get("drain", 0))
+    if case.get("stall") is not None:
+        proc.stdin.stall = float(case["stall"])
+        proc.stdin.t_open = loop.time()
+        proc.stdin.capacity = int(case.get("capacity", 131072))
+    proc.stdin.fail_sends = set(case.get("fail_sends", []))
+    proc.stdin.breaks_at = case.get("breaks_at")
     # after the script the child's stdout stays open (it is still running)
     never = anyio.Event()
     inner_next = proc.stdout._next
@@ -525,11 +597,15 @@ async def _duplex_case(mod, holder, case, build):
             async def consume():
                 async for m in read:
                     delivered.append(m)
+                    if case.get("echo") and getattr(m, "method", None) is not None and getattr(m, "id", None) is not None:
+                        # re-entrancy through the streams: the consumer of the read stream answers on the write stream of the
+                        # same connection while the reader is in the middle of a batch / a burst
+                        await write.send({"jsonrpc": "2.0", "id": m.id, "result": {"echo": m.method}})
 
             async with anyio.create_task_group() as tg:
                 tg.start_soon(consume)
                 await _send_items(client, write, case["items"], build)
-                await anyio.sleep(120.0)  # virtual: everything that can happen has happened
+                await anyio.sleep(120.0 + 3 * float(case.get("stall") or 0))  # virtual: everything that can happen has happened
                 before_close = {"closed": proc.stdin.closed, "n": len(proc.stdin.sends)}
                 if case.get("close", True):
                     await write.aclose()
@@ -539,17 +615,27 @@ async def _duplex_case(mod, holder, case, build):
                 tg.cancel_scope.cancel()
     except (Exception, _Cancelled()) as ex:  # noqa (a crashed task of the client cancels the host task too)
         return {"harness_error": type(ex).__name__}
-    return {"sends": sends, "before_close": before_close, "after_close": after, "delivered": len(delivered)}
+    return {"sends": sends, "before_close": before_close, "after_close": after, "delivered": len(delivered),
+            "failed_sends": list(proc.stdin.failed)}
 
 
-def debug_logging():
-    """a host that configured logging at DEBUG (every `logger.debug(...)` / `isEnabledFor(DEBUG)` branch live;
-    records go to a NullHandler); returns the restore function"""
+def debug_logging(formatting=False):
+    """a host that configured logging at DEBUG (every `logger.debug(...)` / `isEnabledFor(DEBUG)` branch live).
+    Records go to a NullHandler, or (`formatting`) to a handler that FORMATS every record the way a host's
+    list / memory handler does (`emit` calls `self.format(record)`: `%`-style arguments are applied, `__str__` /
+    `__repr__` of the arguments run, and a failure propagates to the logging call).  Returns the restore function."""
     import logging
+
+    class _Formatting(logging.Handler):
+        def emit(self, record):
+            self.format(record)
 
     root = logging.getLogger()
     prev_disable, prev_level, prev_handlers = root.manager.disable, root.level, list(root.handlers)
-    root.handlers[:] = [logging.NullHandler()]
+    h = _Formatting() if formatting else logging.NullHandler()
+    if formatting:
+        h.setFormatter(logging.Formatter("%(asctime)s %(name)s %(levelname)s %(message)s"))
+    root.handlers[:] = [h]
     root.setLevel(logging.DEBUG)
     logging.disable(logging.NOTSET)
 
@@ -603,7 +689,7 @@ def run_prelude(names):
 
 async def _wrapped(fn, case):
     """one case with its process-level conditions: DEBUG logging, an earlier use of the process"""
-    restore = debug_logging() if case.get("debug") else None
+    restore = debug_logging(case.get("debug") == "format") if case.get("debug") else None
     try:
         if case.get("prelude"):
             run_prelude(case["prelude"])
@@ -631,7 +717,7 @@ async def _run_all(cases, fn):
             # observation is kept (so a replay of this one case reproduces the situation)
             sib = list(cases[i]["with"])
             res = [None] * (1 + len(sib))
-            restore = debug_logging() if cases[i].get("debug") else None
+            restore = debug_logging(cases[i].get("debug") == "format") if cases[i].get("debug") else None
             try:
                 async def one_w(k, c):
                     res[k] = await fn(c)
